@@ -630,3 +630,25 @@ Example ex_clean_join : let b := bs "/srv/cake"%string in let v := bs "my/../lay
   b <> [] /\ is_rooted b = true /\ v <> [] /\ is_rooted v = false
   /\ clean (b ++ sl :: v) = bs "/srv/cake/layers2"%string.
 Proof. vm_compute. repeat split; try discriminate; reflexivity. Qed.
+(* a file that supplies every setting and names itself as CONFIGFILE: nothing later in the chain
+   could change a value, and the chain is still followed and reported as a loop *)
+Definition ex_complete_loop : env :=
+  MkEnv (bs "/c/a.conf"%string) [] [] [] [] (bs "/usr/bin/layercake"%string) (bs "/c"%string)
+    [(bs "/"%string, NDir); (bs "/c"%string, NDir);
+     (bs "/c/a.conf"%string, NFile (bs "BASEPATH = /srv/cake
+LAYERS = layers
+BUILDROOT = build
+BINPKGS = packages
+GENERATED_FILES = generated
+OVERFS_WORKDIR = overlayfs/workdir
+OVERFS_UPPERDIR = overlayfs/upperdir
+EXPORTS = export
+EXPORT_BINPKGS = packages
+EXPORT_GENERATED_FILES = generated
+CHROOT_EXEC = /usr/bin/chroot
+CONFIGFILE = /c/./a.conf
+"%string))].
+Example ex_complete_loop_ok : wf (mk ex_complete_loop) = true /\ kf (mk ex_complete_loop) = 0%N
+  /\ in_scope ex_complete_loop = true /\ reference ex_complete_loop = RRes (OErr ELoop)
+  /\ load ex_complete_loop = OErr ELoop.
+Proof. vm_compute. auto. Qed.
